@@ -328,6 +328,11 @@ impl simhook::SimHooks for Hooks {
     fn num_threads(&mut self) -> usize {
         (self.0).0.lock().unwrap().num_threads
     }
+    fn choose(&mut self, n: usize, site: &'static str) -> usize {
+        let v = self.0.draw(Stream::S, n as u64, site) as usize;
+        self.0.event("choose", n as u64, v as u64);
+        v
+    }
     fn mode_t(&mut self, n: usize) -> Option<(usize, simhook::baton::Chooser)> {
         let w = (self.0).0.lock().unwrap().mode_t?;
         self.0.event("section-threads", n as u64, w as u64);
